@@ -23,7 +23,7 @@ pub fn lin_error(e: &LinearizationError) -> String {
 }
 
 pub fn bounds_sx(m: &Model) -> (String, String) {
-    let rep = rooc::verif_hooks::analyze_bounds(m.domain(), m.constraints(), &[]);
+    let rep = rooc::verif_hooks::linearizer_bounds(m.domain(), m.constraints());
     let b = rep.variables.iter().map(|(n, lo, hi)| format!("({} (b {} {}))", sx::q(n), sx::num(*lo), sx::num(*hi))).collect::<Vec<_>>().join(" ");
     (format!("(bounds{}{})", if b.is_empty() { "" } else { " " }, b), sx::domain(&rep.domain))
 }
@@ -66,7 +66,7 @@ fn has_nonfinite_literal(e: &Exp) -> bool {
 /// root-cause flags used to match known findings narrowly
 pub fn flags(m: &Model) -> Vec<String> {
     let mut f = vec![];
-    let rep = rooc::verif_hooks::analyze_bounds(m.domain(), m.constraints(), &[]);
+    let rep = rooc::verif_hooks::linearizer_bounds(m.domain(), m.constraints());
     for (n, lo, hi) in &rep.variables {
         if is_bool_var(m, n) && m.domain()[n].is_used() && (*lo != 0.0 || *hi != 1.0) { f.push("boolean-derived-range".to_string()); break; }
     }
@@ -89,7 +89,7 @@ pub fn one(m: &Model, tag: &str, prop: &str) -> Case {
         Ok(Ok(lm)) => {
             c.imp = format!("(ok {})", sx::lin_model(&lm));
             c.nontrivial = lm.variables().iter().any(|v| v.starts_with('$'));
-            c.tags = vec![tag.into(), "compiled".into(), if c.nontrivial { "aux".into() } else { "affine".into() }];
+            c.tags = vec![tag.into(), "compiled".into(), if c.nontrivial { "aux".into() } else { "no-aux".into() }];
             for v in lm.variables() {
                 if let Some(k) = v.strip_prefix('$') { c.tags.push(format!("aux:{}", k.split('_').next().unwrap_or(""))); }
             }
@@ -112,11 +112,13 @@ pub fn one(m: &Model, tag: &str, prop: &str) -> Case {
 
 pub fn configs() -> Vec<(&'static str, ModelCfg)> {
     vec![
-        ("affine", ModelCfg { max_vars: 3, depth: 2, logic: false, piecewise: false, unbounded: true, fractional: true }),
-        ("piecewise", ModelCfg { max_vars: 3, depth: 2, logic: false, piecewise: true, unbounded: false, fractional: false }),
-        ("piecewise-frac", ModelCfg { max_vars: 3, depth: 3, logic: false, piecewise: true, unbounded: true, fractional: true }),
-        ("logic", ModelCfg { max_vars: 4, depth: 2, logic: true, piecewise: false, unbounded: false, fractional: false }),
-        ("mixed", ModelCfg { max_vars: 4, depth: 3, logic: true, piecewise: true, unbounded: false, fractional: false }),
+        ("affine", ModelCfg { max_vars: 3, depth: 2, logic: false, piecewise: false, unbounded: true, fractional: true, strict_cmp: true, hostile: false }),
+        ("piecewise", ModelCfg { max_vars: 3, depth: 2, logic: false, piecewise: true, unbounded: false, fractional: false, strict_cmp: true, hostile: false }),
+        ("piecewise-frac", ModelCfg { max_vars: 3, depth: 3, logic: false, piecewise: true, unbounded: true, fractional: true, strict_cmp: true, hostile: false }),
+        ("logic", ModelCfg { max_vars: 4, depth: 2, logic: true, piecewise: false, unbounded: false, fractional: false, strict_cmp: true, hostile: false }),
+        ("mixed", ModelCfg { max_vars: 4, depth: 3, logic: true, piecewise: true, unbounded: false, fractional: false, strict_cmp: true, hostile: false }),
+        ("hostile", ModelCfg { max_vars: 4, depth: 3, logic: true, piecewise: true, unbounded: true, fractional: false, strict_cmp: true, hostile: true }),
+        ("deep-piecewise", ModelCfg { max_vars: 2, depth: 4, logic: false, piecewise: true, unbounded: false, fractional: false, strict_cmp: false, hostile: false }),
     ]
 }
 
